@@ -1958,6 +1958,15 @@ impl<'a> CompilerState<'a> {
                 Rule::id_name => {
                     name = pair.as_str().to_string();
                     superstart = Some(start);
+                    // The tables of the string literals are named cctmp0, cctmp1...
+                    if let Some(n) = name.strip_prefix("cctmp") {
+                        if !n.is_empty() && n.chars().all(|c| c.is_ascii_digit()) {
+                            return Err(self.syntax_error(
+                                &format!("{} is a reserved name", &name),
+                                start,
+                            ));
+                        }
+                    }
                 }
                 Rule::var_sign => {
                     return_signed = pair.as_str().eq("return_signed");
